@@ -382,8 +382,20 @@ def run(ctx):
         total = n_frames / real_sr
         # clips
         for _ in range(ctx.scale(50, 40)):
-            how = rng.choice(["aligned", "aligned", "free", "free", "zero", "subsample", "past_eof", "whole", "decimal"])
-            if how == "aligned":
+            how = rng.choice(["aligned", "aligned", "free", "free", "zero", "subsample", "past_eof", "whole", "decimal", "cross", "cross", "cross"])
+            if how == "cross":
+                # every kind of start with every kind of end (a start in the first frame with an end past the file, ...)
+                sk = rng.choice(["zero", "first_frame", "aligned", "free", "last_frame"])
+                ek = rng.choice(["same", "subsample", "aligned", "free", "total", "just_past", "far_past"])
+                a = rng.randrange(0, n_frames)
+                start = {"zero": 0.0, "first_frame": rng.uniform(0, 1 / real_sr) * 0.99, "aligned": a / real_sr, "free": rng.uniform(0, total),
+                         "last_frame": (n_frames - 1) / real_sr}[sk]
+                end = {"same": start, "subsample": start + rng.uniform(0, 1 / real_sr) * 0.9, "aligned": rng.randrange(a, n_frames + 1) / real_sr,
+                       "free": start + rng.uniform(0, max(total - start, 0)), "total": total, "just_past": total + rng.uniform(0.2, 3) / real_sr,
+                       "far_past": total + rng.choice([0.25, 0.5, total / 2])}[ek]
+                end = max(end, start)
+                how = f"cross:{sk}:{ek}"
+            elif how == "aligned":
                 a = rng.randrange(0, n_frames); b = rng.randrange(a, n_frames + 1)
                 start, end = a / real_sr, b / real_sr
             elif how == "free":
